@@ -1,4 +1,5 @@
 """C04 — an async coroutine runs once, delivers to its bound party, frees once."""
+import itertools
 import re
 from vlib.runner import Spec, Suite
 
@@ -406,6 +407,193 @@ class AsyncSuite(Suite):
         return msgs
 
 
+# ==============================================================================================
+# T-style suite: threads racing start(shared promise) under the baton scheduler (harness/h_async_t.cpp)
+# ==============================================================================================
+
+HARNESS_T = ("h_async_t", ["h_async_t.cpp"], {"extra_flags": ["-I/verif/harness/shim", "-fno-access-control"]})
+T_START = ["start", "startw", "startx"]
+T_RES = ["value", "exc", "drop"]
+
+
+def t_line(kind, n):
+    if kind in ("start", "startw", "value"):
+        return "t %s %d" % (kind, 10 + n)
+    if kind in ("startx", "exc"):
+        return "t %s %d" % (kind, 1 + n)
+    return "t " + kind
+
+
+def t_case(kinds, sched, ty="int"):
+    return {"id": 0, "lines": ["case 0 asynct %s" % ty] + [t_line(k, j) for j, k in enumerate(kinds)]
+            + ["sched " + " ".join(map(str, sched)), "end"]}
+
+
+T_PAIRS = [("start", "start"), ("start", "startw"), ("startw", "startw"), ("start", "startx"), ("startx", "startw"),
+           ("start", "value"), ("value", "start"), ("start", "exc"), ("start", "drop"), ("startw", "value"),
+           ("drop", "startw"), ("startx", "value"), ("start", "dtor"), ("startw", "dtor")]
+
+
+class RaceSuite(Suite):
+    """no model comparison: the oracle is the statement of C04 for start(promise) evaluated on the trace of the real
+    headers under every enumerated interleaving of their atomic operations"""
+    name = "start-promise-race"
+    harness = HARNESS_T
+    driver = None
+    compare = False
+    corpus_prefix = "c04t_"
+    chunk = 300
+    timeout = 600
+    nontrivial_rule = "at least two threads claim the promise and the interleaving contains a context switch between their atomic operations"
+
+    def gen_cases(self, rng, tier):
+        L2, n3, L3x = (10, 3000, 0) if tier == "quick" else (13, 60000, 9)
+        cases = []
+        # every schedule prefix of length L2 for every 2-thread shape (each start(promise) performs 1-3 atomic operations
+        # before the body, at most 6 in all: every interleaving of two contenders is a prefix of length <= 8 + default rest)
+        for sh in T_PAIRS:
+            for bits in itertools.product([0, 1], repeat=L2):
+                cases.append(t_case(sh, bits))
+        # 3 and 4 contenders: random shapes (at least two start threads mostly), random bursty schedules
+        for _ in range(n3):
+            n = 3 if rng.random() < 0.75 else 4
+            kinds = [rng.choice(T_START) for _ in range(rng.choice([1, 2, 2, 3]))]
+            while len(kinds) < n:
+                kinds.append(rng.choice(T_START + T_RES + T_RES))
+            kinds = kinds[:n]
+            rng.shuffle(kinds)
+            if rng.random() < 0.3:
+                kinds[rng.randrange(n)] = "dtor"
+            sched = []
+            ln = rng.randint(0, 6 * n)
+            while len(sched) < ln:
+                sched += [rng.randrange(n)] * (1 if rng.random() < 0.7 else rng.randint(2, 3))
+            cases.append(t_case(kinds, sched[:ln], rng.choice(["int", "int", "void", "uptr"])))
+        if L3x:
+            for sh in [("start", "start", "start"), ("start", "startw", "value"), ("startx", "start", "drop"), ("start", "start", "dtor")]:
+                for tr in itertools.product([0, 1, 2], repeat=L3x):
+                    cases.append(t_case(sh, tr))
+        return cases
+
+    @staticmethod
+    def parse(case, out):
+        threads = [l.split() for l in case["lines"][1:] if l.split()[:1] == ["t"] and len(l.split()) > 1]
+        info = {"threads": threads, "rets": {}, "body_run": {}, "argd_run": {}, "count": {}, "final": None,
+                "deadlock": False, "crash": None, "assert": None, "ops": [], "cleanup": False}
+        for l in out:
+            w = l.split()
+            if not w:
+                continue
+            if w[0] == "ret":
+                info["rets"].setdefault(int(w[1][1:]), []).append(int(w[2]))
+            elif w[0] == "body" and not info["cleanup"]:
+                info["body_run"][int(w[1][1:])] = info["body_run"].get(int(w[1][1:]), 0) + 1
+            elif w[0] == "argd" and not info["cleanup"]:
+                info["argd_run"][int(w[1][1:])] = info["argd_run"].get(int(w[1][1:]), 0) + 1
+            elif w[0] == "cleanup":
+                info["cleanup"] = True
+            elif w[0] == "count":
+                info["count"][int(w[1][1:])] = (int(w[2].split("=")[1]), int(w[3].split("=")[1]))
+            elif w[0] == "final":
+                info["final"] = (w[1], w[2] if len(w) > 2 else "-")
+            elif w[0] == "deadlock":
+                info["deadlock"] = True
+            elif w[0] == "crash":
+                info["crash"] = l
+            elif w[0] == "assert-failed":
+                info["assert"] = l
+            elif w[0] == "s":
+                info["ops"].append(w)
+        return info
+
+    def nontrivial(self, case, out):
+        i = self.parse(case, out)
+        claimers = [t for t in i["threads"] if t[1] != "dtor"]
+        tids = [w[1] for w in i["ops"] if len(w) > 3 and w[3] == "owner"]
+        return len(claimers) >= 2 and sum(1 for a, b in zip(tids, tids[1:]) if a != b) >= 1
+
+    def stats(self, cases, outs):
+        shapes, types, switches, wins_by_kind = {}, {}, 0, {}
+        for c in cases:
+            ths = [l.split()[1] for l in c["lines"][1:] if l.startswith("t ")]
+            k = " ".join(ths)
+            shapes[k] = shapes.get(k, 0) + 1
+            ty = c["lines"][0].split()[3] if len(c["lines"][0].split()) > 3 else "int"
+            types[ty] = types.get(ty, 0) + 1
+            o = outs.get(str(c["id"]), [])
+            tids = [l.split()[1] for l in o if l.startswith("s ")]
+            switches += sum(1 for a, b in zip(tids, tids[1:]) if a != b)
+            for l in o:
+                w = l.split()
+                if w[:1] == ["ret"] and w[2] == "1" and int(w[1][1:]) < len(ths):
+                    kk = ths[int(w[1][1:])]
+                    wins_by_kind[kk] = wins_by_kind.get(kk, 0) + 1
+        top = dict(sorted(shapes.items(), key=lambda kv: -kv[1])[:16])
+        return {"value_types": types, "distinct_shapes": len(shapes), "top_shapes": top,
+                "context_switches_total": switches, "winner_kind": wins_by_kind}
+
+    def oracle(self, case, out):
+        hdr = case["lines"][0].split()
+        if len(hdr) < 3 or hdr[2] != "asynct":
+            return []
+        ty = hdr[3] if len(hdr) > 3 else "int"
+        i = self.parse(case, out)
+        if i["crash"]:
+            return ["crash: the implementation crashed (%s)" % i["crash"]]
+        if i["assert"]:
+            return ["assert: " + i["assert"]]
+        if i["deadlock"]:
+            return ["hang: the racing threads did not finish"]
+        msgs = []
+        th = i["threads"]
+        if not th:
+            return msgs
+        claimers = [n for n, t in enumerate(th) if t[1] != "dtor"]
+        for n in claimers:
+            if len(i["rets"].get(n, [])) != 1:
+                msgs.append("claimed-promise: call of t%d returned %d times" % (n, len(i["rets"].get(n, []))))
+        wins = [n for n in claimers if 1 in i["rets"].get(n, [])]
+        if claimers and len(wins) != 1:
+            msgs.append("claimed-promise: %d of %d calls on ONE promise reported success (%s)" % (
+                len(wins), len(claimers), " ".join("t%d:%s" % (n, th[n][1]) for n in wins)))
+        if i["final"] is None:
+            return msgs + ["final: no final state reported"]
+        for n, t in enumerate(th):
+            body, argd = i["count"].get(n, (0, 0))
+            if t[1] in T_START:
+                won = 1 in i["rets"].get(n, [])
+                if not won and (body or i["body_run"].get(n)):
+                    msgs.append("claimed-promise: start(promise) of t%d returned false but its coroutine ran" % n)
+                if not won and i["argd_run"].get(n):
+                    msgs.append("claimed-promise: start(promise) of t%d returned false but its frame was destroyed by the call" % n)
+                if won and body != 1:
+                    msgs.append("body-once: start(promise) of t%d returned true, its body ran %d times" % (n, body))
+                if body > 1:
+                    msgs.append("body-once: body of t%d ran %d times" % (n, body))
+                if argd != 1:
+                    msgs.append("args-once: arguments of the coroutine of t%d destroyed %d times" % (n, argd))
+            elif body or argd:
+                msgs.append("body-once: thread t%d owns no coroutine but one ran" % n)
+        st, val = i["final"]
+        if st != "ready":
+            msgs.append("delivery: the future is still pending after the promise was claimed/destroyed")
+        elif len(wins) == 1 or not claimers:
+            if wins:
+                t = th[wins[0]]
+                if t[1] in ("start", "startw", "value"):
+                    exp = "v" if ty == "void" else "v:" + t[2]
+                elif t[1] in ("startx", "exc"):
+                    exp = "exc:" + t[2]
+                else:
+                    exp = "canceled"
+            else:
+                exp = "canceled"
+            if val != exp:
+                msgs.append("delivery: the future holds %s, the winner (%s) produced %s" % (
+                    val, "t%d:%s" % (wins[0], th[wins[0]][1]) if wins else "nobody", exp))
+        return msgs
+
+
 class C04(Spec):
     pid = "C04"
     lean_modules = ["CoclsModel.Props.C04"]
@@ -428,7 +616,7 @@ class C04(Spec):
                    "only the driver resolves the external promises (coroutines do not race for them)"]
 
     def suites(self):
-        return [AsyncSuite()]
+        return [AsyncSuite(), RaceSuite()]
 
 
 SPEC = C04()
